@@ -855,13 +855,125 @@ fn flags_mxcsr(t: &mut T, a: &Args) {
     cpu().mxcsr = 0x1f80;
 }
 
+
+// ---------------------------------------------------------------------------------------------- sequences and call sites
+/// In one function, without any call in between: read, write, read, write, read. Every read returns what the preceding write
+/// stored (a register read is not a constant of the function), and the register ends with the last value.
+macro_rules! rwr {
+    ($t:expr, $name:literal, $set:expr, $rd:expr, $wr:expr, $v:expr) => {{
+        let v: [u64; 3] = $v;
+        $set(v[0]);
+        let (rv, _) = stepped(|| {
+            let a = $rd();
+            $wr(v[1]);
+            let b = $rd();
+            $wr(v[2]);
+            let c = $rd();
+            (a, b, c)
+        });
+        $t.r.ev(true);
+        if rv != Ok((v[0], v[1], v[2])) {
+            $t.bad($name, "read-after-write-in-the-same-function-returns-a-stale-value", &format!("{} read;write({:#x});read;write({:#x});read from {:#x}", $name, v[1], v[2], v[0]), format!("{:x?}", rv));
+        }
+    }};
+}
+
+/// call sites that go on using the value they passed to the wrapper: the wrapper's asm must leave its inputs (and every
+/// other live value) alone. Arguments arrive in rdi, rsi, rdx; each site returns them combined.
+macro_rules! keep_site {
+    ($name:ident, |$x:ident| $body:expr) => {
+        #[inline(never)]
+        fn $name($x: u64, y: u64, z: u64) -> u64 {
+            #[allow(unused_unsafe)]
+            unsafe {
+                $body
+            };
+            $x ^ y.rotate_left(17) ^ z.rotate_left(39)
+        }
+    };
+}
+keep_site!(ks_cs, |x| CS::set_reg(SegmentSelector(x as u16)));
+keep_site!(ks_ss, |x| SS::set_reg(SegmentSelector(x as u16)));
+keep_site!(ks_ds, |x| DS::set_reg(SegmentSelector(x as u16)));
+keep_site!(ks_es, |x| ES::set_reg(SegmentSelector(x as u16)));
+keep_site!(ks_fs, |x| FS::set_reg(SegmentSelector(x as u16)));
+keep_site!(ks_gs, |x| GS::set_reg(SegmentSelector(x as u16)));
+keep_site!(ks_tss, |x| load_tss(SegmentSelector(x as u16)));
+keep_site!(ks_fsb, |x| FS::write_base(VirtAddr::new_truncate(x)));
+keep_site!(ks_gsb, |x| GS::write_base(VirtAddr::new_truncate(x)));
+keep_site!(ks_cr0, |x| Cr0::write_raw(x));
+keep_site!(ks_cr4, |x| Cr4::write_raw(x));
+keep_site!(ks_dr7, |x| Dr7::write_raw(x));
+keep_site!(ks_dr0, |x| Dr0::write(x));
+keep_site!(ks_xcr0, |x| XCr0::write_raw(x));
+keep_site!(ks_efer, |x| Efer::write_raw(x));
+keep_site!(ks_lstar, |x| LStar::write(VirtAddr::new_truncate(x)));
+keep_site!(ks_kgs, |x| KernelGsBase::write(VirtAddr::new_truncate(x)));
+keep_site!(ks_msr, |x| Msr::new(0xc000_0103).write(x));
+keep_site!(ks_mxcsr, |x| mxcsr::write(MxCsr::from_bits_truncate(x as u32 & 0xffbf)));
+keep_site!(ks_flush, |x| x86_64::instructions::tlb::flush(VirtAddr::new_truncate(x)));
+keep_site!(ks_rd_cr3, |x| { let _ = std::hint::black_box(Cr3::read_raw()); let _ = x; });
+keep_site!(ks_rd_msr, |x| { let _ = std::hint::black_box(Msr::new(0xc000_0103).read()); let _ = x; });
+keep_site!(ks_rd_fsb, |x| { let _ = std::hint::black_box(FS::read_base()); let _ = x; });
+keep_site!(ks_rd_cs, |x| { let _ = std::hint::black_box(CS::get_reg()); let _ = x; });
+keep_site!(ks_rd_xcr0, |x| { let _ = std::hint::black_box(XCr0::read_raw()); let _ = x; });
+
+fn seq_and_sites(t: &mut T, _a: &Args) {
+    let vs: [[u64; 3]; 3] = [[0x8005_0033, 0x11, 0x8000_0000_0005_0033], [0, u64::MAX, 0x5a5a_5a5a_a5a5_a5a5], [0x0123_4567_89ab_cdef, 0xfedc_ba98_7654_3210, 1]];
+    for v in vs {
+        rwr!(t, "Cr0", |x| cpu().cr[0] = x, || Cr0::read_raw(), |x| unsafe { Cr0::write_raw(x) }, v);
+        rwr!(t, "Cr4", |x| cpu().cr[4] = x, || Cr4::read_raw(), |x| unsafe { Cr4::write_raw(x) }, v);
+        rwr!(t, "Dr7", |x| cpu().dr[7] = x, || Dr7::read_raw(), |x| Dr7::write_raw(x), v);
+        rwr!(t, "Dr0", |x| cpu().dr[0] = x, || Dr0::read(), |x| Dr0::write(x), v);
+        rwr!(t, "Dr3", |x| cpu().dr[3] = x, || Dr3::read(), |x| Dr3::write(x), v);
+        rwr!(t, "Efer", |x| cpu().msr_set(MSR_EFER, x), || Efer::read_raw(), |x| unsafe { Efer::write_raw(x) }, v);
+        rwr!(t, "XCr0", |x| cpu().xcr0 = x, || XCr0::read_raw(), |x| unsafe { XCr0::write_raw(x) }, v);
+        rwr!(t, "Msr", |x| cpu().msr_set(0xc000_0103, x), || unsafe { Msr::new(0xc000_0103).read() }, |x| unsafe { Msr::new(0xc000_0103).write(x) }, v);
+        let c = [sext48(v[0]), sext48(v[1]), sext48(v[2])];
+        rwr!(t, "FsBase", |x| cpu().msr_set(MSR_FS_BASE, x), || FsBase::read().as_u64(), |x| FsBase::write(VirtAddr::new(x)), c);
+        rwr!(t, "GsBase", |x| cpu().msr_set(MSR_GS_BASE, x), || GsBase::read().as_u64(), |x| GsBase::write(VirtAddr::new(x)), c);
+        rwr!(t, "KernelGsBase", |x| cpu().msr_set(MSR_KERNEL_GS_BASE, x), || KernelGsBase::read().as_u64(), |x| KernelGsBase::write(VirtAddr::new(x)), c);
+        rwr!(t, "LStar", |x| cpu().msr_set(MSR_LSTAR, x), || LStar::read().as_u64(), |x| LStar::write(VirtAddr::new(x)), c);
+        rwr!(t, "FS::base", |x| cpu().msr_set(MSR_FS_BASE, x), || FS::read_base().as_u64(), |x| unsafe { FS::write_base(VirtAddr::new(x)) }, c);
+        rwr!(t, "GS::base", |x| cpu().msr_set(MSR_GS_BASE, x), || GS::read_base().as_u64(), |x| unsafe { GS::write_base(VirtAddr::new(x)) }, c);
+        let f = [v[0] & 0x000f_ffff_ffff_f000, v[1] & 0x000f_ffff_ffff_f000, v[2] & 0x000f_ffff_ffff_f000 | 0x3000];
+        rwr!(t, "Cr3", |x| cpu().cr[3] = x, || Cr3::read().0.start_address().as_u64(), |x| unsafe { Cr3::write(PhysFrame::containing_address(PhysAddr::new(x)), Cr3Flags::empty()) }, f);
+        let s16 = [v[0] & 0xffff, v[1] & 0xfffb, v[2] & 0xffff | 8];
+        rwr!(t, "DS", |x| cpu().sel[3] = x as u16, || DS::get_reg().0 as u64, |x| unsafe { DS::set_reg(SegmentSelector(x as u16)) }, s16);
+        rwr!(t, "ES", |x| cpu().sel[0] = x as u16, || ES::get_reg().0 as u64, |x| unsafe { ES::set_reg(SegmentSelector(x as u16)) }, s16);
+        rwr!(t, "SS", |x| cpu().sel[2] = x as u16, || SS::get_reg().0 as u64, |x| unsafe { SS::set_reg(SegmentSelector(x as u16)) }, s16);
+        rwr!(t, "FS", |x| cpu().sel[4] = x as u16, || FS::get_reg().0 as u64, |x| unsafe { FS::set_reg(SegmentSelector(x as u16)) }, s16);
+        rwr!(t, "GS", |x| cpu().sel[5] = x as u16, || GS::get_reg().0 as u64, |x| unsafe { GS::set_reg(SegmentSelector(x as u16)) }, s16);
+        rwr!(t, "CS", |x| cpu().sel[1] = x as u16, || CS::get_reg().0 as u64, |x| unsafe { CS::set_reg(SegmentSelector(x as u16)) }, s16);
+        let m = [0x1f80u64, 0x9fc0 & 0xffbf, 0x0040 | 0x1f80];
+        rwr!(t, "mxcsr", |x| cpu().mxcsr = x as u32, || mxcsr::read().bits() as u64, |x| mxcsr::write(MxCsr::from_bits_truncate(x as u32)), m);
+    }
+    let sites: &[(&str, fn(u64, u64, u64) -> u64)] = &[
+        ("CS::set_reg", ks_cs), ("SS::set_reg", ks_ss), ("DS::set_reg", ks_ds), ("ES::set_reg", ks_es), ("FS::set_reg", ks_fs), ("GS::set_reg", ks_gs), ("load_tss", ks_tss),
+        ("FS::write_base", ks_fsb), ("GS::write_base", ks_gsb), ("Cr0::write_raw", ks_cr0), ("Cr4::write_raw", ks_cr4), ("Dr7::write_raw", ks_dr7), ("Dr0::write", ks_dr0),
+        ("XCr0::write_raw", ks_xcr0), ("Efer::write_raw", ks_efer), ("LStar::write", ks_lstar), ("KernelGsBase::write", ks_kgs), ("Msr::write", ks_msr), ("mxcsr::write", ks_mxcsr),
+        ("tlb::flush", ks_flush), ("Cr3::read_raw", ks_rd_cr3), ("Msr::read", ks_rd_msr), ("FS::read_base", ks_rd_fsb), ("CS::get_reg", ks_rd_cs), ("XCr0::read_raw", ks_rd_xcr0),
+    ];
+    for &(name, f) in sites {
+        for (x, y, z) in [(0x33u64, 0x1111_2222_3333_4444u64, 0x5555_6666_7777_8888u64), (0x0000_7fff_1234_5008, u64::MAX, 0), (0x5c1f, 0x9e37_79b9_7f4a_7c15, 0xd1b5_4a32_d192_ed03)] {
+            use std::hint::black_box as bb;
+            let (rv, _) = stepped(|| f(bb(x), bb(y), bb(z)));
+            t.r.ev(true);
+            let exp = x ^ y.rotate_left(17) ^ z.rotate_left(39);
+            if rv != Ok(exp) {
+                t.bad(name, "call-site-value-changed-across-the-wrapper-call", &format!("{} site({:#x}, {:#x}, {:#x})", name, x, y, z), format!("{:x?} expected {:#x}", rv, exp));
+            }
+        }
+    }
+}
+
 pub fn run(a: &Args) {
     crate::simcpu::init();
     let mut r = Rep::new("C16", "wrappers-step-mode");
     {
         let mut t = T { r: &mut r };
         // shard by wrapper family
-        let fams: [(&str, fn(&mut T, &Args)); 6] = [("control", control_regs), ("debug", debug_regs), ("xcr+msr", xcr_and_msrs), ("star+cet+pat+apic", star_etc), ("segments+tables", segments), ("rflags+mxcsr", flags_mxcsr)];
+        let fams: [(&str, fn(&mut T, &Args)); 7] = [("control", control_regs), ("debug", debug_regs), ("xcr+msr", xcr_and_msrs), ("star+cet+pat+apic", star_etc), ("segments+tables", segments), ("rflags+mxcsr", flags_mxcsr), ("sequences+call-sites", seq_and_sites)];
         let only = a.replay.as_deref();
         for (i, (n, f)) in fams.iter().enumerate() {
             if let Some(c) = only {
@@ -872,7 +984,7 @@ pub fn run(a: &Args) {
                     else if w.starts_with("Star") || w.starts_with("SFMask") || w.contains("Cet") || w.starts_with("Pat") || w.starts_with("ApicBase") { 3 }
                     else if w.starts_with("rflags") || w.starts_with("mxcsr") { 5 } else { 4 }
                 };
-                if fam_of(w) != i { continue; }
+                if fam_of(w) != i && !(i == 6 && (c.contains("read;write(") || c.contains(" site("))) { continue; }
             } else if i % a.nshards != a.shard {
                 continue;
             }
